@@ -144,7 +144,7 @@ def run(R):
     try:
         pyobs, stats = refdata.all_obligations()
         for lib, st in stats.items():
-            R.functions['tools/compare_%s/tdgenerator.py:TestDataGenerator.{binary_search_transition,_find_transitions,is_transition,only_dst}' % lib] = dict(engine='pyvc', **st)
+            R.functions['tools/compare_%s/tdgenerator.py:TestDataGenerator.{binary_search_transition,_find_transitions,is_transition,only_dst,_create_test_item}' % lib] = dict(engine='pyvc', **st)
         for name, pc, goal in pyobs:
             kind = 'variant' if '#variant' in name else 'post'
             obs.append(symex.Obligation(name, kind, name.split('#')[0], None, list(pc), goal, {'no_entry_state': True}))
@@ -207,7 +207,7 @@ def run(R):
         zc.violation(R, 'c19', problems, 'props/C19.py bounded part (rtc/refdata_worker.py)')
     R.assumptions += [
         'P, integer model of datetime (A): an aware datetime is the integer minute of its instant; + timedelta(minutes=k) is +k; (a - b) / timedelta(minutes=1) is a - b; astimezone keeps the instant; utcoffset() / dst() are uninterpreted functions of the instant; datetime(y,1,1,tzinfo=UTC) is JAN1(y) and t.year >= y <=> t >= JAN1(y)',
-        'P proves: the search ends on adjacent minutes with a change between them inside the sampled interval and terminates; the sampled intervals tile [1 Jan start_year, 1 Jan until_year - 1 min] with no hole; every interval whose ends differ appends such a pair with the right only_dst flag. NOT provable from the code: at most one change per sampling interval, and changes whose two ends agree -- facts about the libraries, left to the bounded run',
+        'P proves: the search ends on adjacent minutes with a change between them inside the sampled interval and terminates; the sampled intervals tile [1 Jan start_year, 1 Jan until_year - 1 min] with no hole; every interval whose ends differ appends such a pair with the right only_dst flag; every field of an item built by _create_test_item is what the library reports for that datetime (timedelta.total_seconds(), the signed length). NOT provable from the code: at most one change per sampling interval, and changes whose two ends agree -- facts about the libraries, left to the bounded run',
         'BOUNDED (never counted as proved): completeness against the transition tables of the installed pytz 2026.3 / dateutil 2.9 (system zoneinfo), samples, field equality, and the renderer read-back',
         'tools/validator/zstdgenerator.py brackets the transitions of ZoneSpecifier (not of the library) one second apart; it is outside the bracket clause and is not covered',
         'table transitions at non-minute instants are skipped (none in 2000..2037)',
